@@ -46,6 +46,13 @@ type Case struct {
 	Sign         vkit.SignKeySpec  `json:"sign"`
 	OldKeys      []vkit.PubKeySpec `json:"old_keys,omitempty"` // further published keys (rotated-out ones)
 	Rotate       *vkit.SignKeySpec `json:"rotate,omitempty"`   // the signing key is rotated to this one (same algorithm) right before the response under test; the old key stays published
+	// Roll: a roll-over of the signing key (any algorithm / key type) that the storage performs by itself after Roll.After further reads of
+	// Storage.SigningKey, counted from the start of the request under test: the switch can land before, between or after the
+	// key reads of one response (or in a later response of the flow). Both public keys are published throughout.
+	Roll *vkit.KeyRoll `json:"roll,omitempty"`
+	// UseMode: which published keys state no `use` member (it is optional, RFC 7517 4.2): "" = every key says "sig",
+	// "none" = no key states a use, "signing" = the signing keys (current / rotated / rolled) state none, "old" = the rotated-out ones state none
+	UseMode      string            `json:"use_mode,omitempty"`
 	CryptoKey    byte              `json:"crypto_key"`
 	Flow         string            `json:"flow"` // code | implicit_id | implicit_id_token | refresh | device | client_credentials | jwt_bearer | exchange
 	Client       vkit.ClientSpec   `json:"client"`
@@ -149,6 +156,22 @@ func genCase(t *rapid.T) Case {
 			c.Rotate = &vkit.SignKeySpec{KeyName: rapid.SampledFrom(others).Draw(t, "rotkey"), Alg: c.Sign.Alg, KID: "rotated-" + c.Sign.KID}
 		}
 	}
+	// roll-over performed by the storage in the middle of the flow, to any algorithm (the hash of at_hash / c_hash changes with it)
+	if rapid.IntRange(0, 2).Draw(t, "roll") == 2 {
+		c.Rotate = nil
+		nalg := rapid.SampledFrom(algKinds).Draw(t, "rollalg")
+		var names []string
+		for _, n := range keysFor(nalg) {
+			if n != c.Sign.KeyName {
+				names = append(names, n)
+			}
+		}
+		if len(names) > 0 {
+			c.Roll = &vkit.KeyRoll{After: rapid.SampledFrom([]int{0, 1, 1, 2, 2, 3, 3, 4, 5, 6}).Draw(t, "rollafter"),
+				Next: vkit.SignKeySpec{KeyName: rapid.SampledFrom(names).Draw(t, "rollkey"), Alg: nalg, KID: "roll-" + c.Sign.KID}}
+		}
+	}
+	c.UseMode = rapid.SampledFrom([]string{"", "", "", "", "none", "signing", "old"}).Draw(t, "usemode")
 	c.CryptoKey = byte(rapid.SampledFrom([]int{0, 1, 0x5a, 0xff}).Draw(t, "cryptokey"))
 
 	// issuer strategy
@@ -310,7 +333,8 @@ type env struct {
 	cl     *vkit.ClientSpec
 	helper *vkit.ClientSpec
 	key    []byte
-	sign   vkit.SignKeySpec // the provider's current signing key
+	sign   vkit.SignKeySpec // the provider's current signing key (as of the last judged response)
+	armed  bool             // the roll-over of the case has been handed to the storage
 	slow   bool
 	nIss   int
 }
@@ -380,6 +404,14 @@ func (e *env) authorize(step string, a0, a1 *vkit.Agent, cl *vkit.ClientSpec, re
 
 // rotate switches the provider to the new signing key; the old public key stays in the published set.
 func (e *env) rotate(mainStep bool) {
+	if mainStep && e.c.Roll != nil && !e.armed {
+		// from here on the storage counts the reads of its signing key and switches by itself
+		e.armed = true
+		e.st.SetKeyRoll(*e.c.Roll)
+		e.applyUse()
+		e.res.Label("key-roll:armed")
+		return
+	}
 	if !mainStep || e.c.Rotate == nil || e.sign == *e.c.Rotate {
 		return
 	}
@@ -387,7 +419,50 @@ func (e *env) rotate(mainStep bool) {
 	e.st.PubKeys = append(e.st.PubKeys, vkit.PubKeySpec{KeyName: nk.KeyName, Alg: nk.Alg, KID: nk.KID, Use: "sig"})
 	e.st.SignKey = nk
 	e.sign = nk
+	e.applyUse()
 	e.res.Label("key-rotated-before-issuance")
+}
+
+// applyUse edits the `use` the storage states for its published keys according to the case's UseMode.
+func (e *env) applyUse() {
+	if e.c.UseMode == "" {
+		return
+	}
+	for i := range e.st.PubKeys {
+		k := &e.st.PubKeys[i]
+		signing := k.KID == e.c.Sign.KID || (e.c.Rotate != nil && k.KID == e.c.Rotate.KID) || (e.c.Roll != nil && k.KID == e.c.Roll.Next.KID)
+		switch e.c.UseMode {
+		case "none":
+			k.Use = ""
+		case "signing":
+			if signing {
+				k.Use = ""
+			}
+		case "old":
+			if !signing {
+				k.Use = ""
+			}
+		}
+	}
+}
+
+// signingKeysOf returns the signing keys a token of the response that was just received may legitimately carry: the provider's
+// current key; when the storage rolled over while this response was produced, the key before or the key after the switch
+// (a roll-over at the very first read leaves only the new one).
+func (e *env) signingKeysOf() []vkit.SignKeySpec {
+	before, after := e.sign, e.st.SignKey
+	e.sign = after
+	if before == after {
+		return []vkit.SignKeySpec{after}
+	}
+	e.res.Label("key-roll:switched-during-response")
+	if hashBits(before.Alg) != hashBits(after.Alg) {
+		e.res.Label("key-roll:hash-size-changes")
+	}
+	if e.c.Roll != nil && e.c.Roll.After == 0 {
+		return []vkit.SignKeySpec{after}
+	}
+	return []vkit.SignKeySpec{before, after}
 }
 
 const pkceVerifier = "verifier-0123456789-0123456789-0123456789-0123456789"
@@ -457,6 +532,7 @@ func run(c Case) (res *vkit.Result) {
 		return res
 	}
 	e := &env{c: c, res: res, st: st, sut: sut, cl: &cl, helper: helper, key: providerKey(c.CryptoKey), sign: c.Sign}
+	e.applyUse()
 	e.main = vkit.NewAgent(sut)
 	e.main.Host, e.main.Forwarded = c.Issuer.Host, c.Issuer.Forwarded
 	e.pre = vkit.NewAgent(sut)
@@ -489,6 +565,7 @@ func run(c Case) (res *vkit.Result) {
 	case "device":
 		all = e.deviceFlow()
 	case "client_credentials":
+		e.rotate(true)
 		t0 := time.Now()
 		r := e.main.Token(url.Values{"grant_type": {vkit.GCC}, "scope": {strings.Join(c.Scopes, " ")}}, e.cred(e.main, e.cl))
 		t1 := time.Now()
@@ -505,6 +582,7 @@ func run(c Case) (res *vkit.Result) {
 	case "jwt_bearer":
 		now := time.Now()
 		assertion := vkit.AssertionWith(cl.ID, cl.ID, []string{e.issuerOf(e.main)}, "ka", cl.Keys["ka"], now.Add(-5*time.Second), now.Add(5*time.Minute), nil)
+		e.rotate(true)
 		t0 := time.Now()
 		r := e.main.Token(url.Values{"grant_type": {vkit.GBearer}, "assertion": {assertion}, "scope": {strings.Join(c.Scopes, " ")}}, vkit.Cred{Kind: "none"})
 		t1 := time.Now()
@@ -559,6 +637,15 @@ func run(c Case) (res *vkit.Result) {
 	if len(c.OldKeys) > 0 {
 		res.Label("published-keys>1")
 	}
+	if c.UseMode != "" {
+		res.Label("published-use-absent:" + c.UseMode)
+	}
+	if c.Roll != nil {
+		res.Label(fmt.Sprintf("key-roll:after=%d", c.Roll.After))
+		if e.st.SignKey != c.Roll.Next {
+			res.Label("key-roll:not-reached")
+		}
+	}
 	if cl.UserinfoAssertion {
 		res.Label("userinfo-assertion")
 	}
@@ -585,7 +672,7 @@ func run(c Case) (res *vkit.Result) {
 	res.Key = fmt.Sprintf("%s|%s|%s|%s|%s|at=%s|skew=%d|life=%d|ttl=%d|ua=%v|%s|%s|xaud=%d|iss=%s/%v/%v|old=%d|x=%v|drop=%v/%v|nonce=%v",
 		c.Router, c.Flow, variant, cl.AuthMethod, c.Sign.Alg, at, cl.ClockSkewS, cl.IDTokenLifetimeS, c.Policy.AccessTTLS, cl.UserinfoAssertion,
 		strings.Join(c.Scopes, ","), cl.ID, len(c.Policy.ExtraAudience), c.Issuer.Mode, c.Issuer.PreHost != "", c.Issuer.FwdHost != "", len(c.OldKeys), c.Extras,
-		cl.DropIDTokenScopes, cl.DropATScopes, c.Nonce != "") + fmt.Sprintf("|rot=%v", c.Rotate != nil)
+		cl.DropIDTokenScopes, cl.DropATScopes, c.Nonce != "") + fmt.Sprintf("|rot=%v", c.Rotate != nil) + rollKey(c)
 	info := map[string]any{"responses": len(all)}
 	for _, is := range all {
 		if is.Main {
@@ -595,6 +682,18 @@ func run(c Case) (res *vkit.Result) {
 	}
 	res.Info = info
 	return res
+}
+
+// rollKey is the distinctness class of the roll-over / published-use dimensions ("" for cases without them, so that the keys of older cases stay as they were).
+func rollKey(c Case) string {
+	out := ""
+	if c.Roll != nil {
+		out += fmt.Sprintf("|roll=%d>%s", c.Roll.After, c.Roll.Next.Alg)
+	}
+	if c.UseMode != "" {
+		out += "|use=" + c.UseMode
+	}
+	return out
 }
 
 func (e *env) refreshFlow() []*issuance {
@@ -804,7 +903,7 @@ func (e *env) exchangeFlow() []*issuance {
 var prop = vkit.Prop[Case]{
 	ID: "C06",
 	Rule: "cases = flow (code, implicit id_token, implicit id_token token, refresh x 1-2 rounds x narrowing, device, client_credentials, jwt-bearer, token-exchange x subject token kind x requested type x audience x actor x impersonation) " +
-		"x access token type (opaque/JWT) x 8 signing key kinds (+0-2 rotated-out published keys, optional rotation to another key of the same algorithm right before the response under test) x client clock skew {0,1,30,300 s} x id-token lifetime x access-token TTL x scope set (with/without openid, custom scope) x userinfo-assertion flag " +
+		"x access token type (opaque/JWT) x 8 signing key kinds (+0-2 rotated-out published keys; optional rotation to another key of the same algorithm right before the response under test, or a roll-over to a key of any of the 8 kinds that the storage performs by itself after 0-6 further reads of its signing key, i.e. before / between / after the key reads of one response or in a later response of the flow: every token must be self-consistent (header, signature, at_hash / c_hash hash function) under ONE of the keys in force during that response and verify over /keys) x `use` member of the published keys (all 'sig' / absent on all / absent on the signing keys / absent on the rotated-out keys) x client clock skew {0,1,30,300 s} x id-token lifetime x access-token TTL x scope set (with/without openid, custom scope) x userinfo-assertion flag " +
 		"x client scope restrictions x extra audience x issuer strategy (static/host/forwarded, split hosts, Forwarded header forms) x provider crypto key x router x client auth method; every token of every response of the flow " +
 		"(preparatory ones included) is verified with rp.VerifyTokens / op.VerifyAccessToken over the provider's /keys endpoint and /userinfo, and re-derived independently (crypto/* signature, at_hash, c_hash, AES-CFB unsealing, claims vs. the storage's ground truth, time brackets with a 2 s guard). " +
 		"Excluded: opaque subject tokens and requested_token_type=jwt in token exchange (crash / empty token: findings of C09/C15), form_post delivery (C11). " +
